@@ -1,7 +1,7 @@
 """C06 - every metafile written is canonical, structurally valid bencoding."""
 import ast
 
-from tfsa.flow import Flow, walk_terms
+from tfsa.flow import Flow, walk_terms, show
 from tfsa.loader import own_nodes, AnalysisError
 from tfsa.pointsto import inplace_rekey, PointsTo, is_sorted_items_copy, sorted_copy_info, STAR, ELEM
 from tfsa.reach import ReachDefs
@@ -817,6 +817,10 @@ def hash_kinds(ctx, pt):
                              norm(ins.node) + " :: " + name)
             elif cut:
                 ctx.undecided("C06.6", ins.fn, "origin of '%s' too deep to follow" % name, norm(ins.node) + " :: " + name)
+            elif any(x[0] in ("unknown", "selfattr", "attr", "meth") for x in walk_terms(t)):
+                # the value comes out of something the origin terms do not follow (a call through a factory attribute, an
+                # attribute of an object of unknown class): no hash function is visible, but none is excluded either
+                ctx.undecided("C06.6", ins.fn, "origin of '%s' not understood: %s" % (name, show(t, maxdepth=2)[:80]), norm(ins.node) + " :: " + name)
             else:
                 ctx.violated("C06.6", ins.fn, "'%s' does not derive from %s" % (name, exp), norm(ins.node) + " :: " + name)
     # leaf 'pieces root' literals
